@@ -96,7 +96,10 @@ def validate(trace_path, wd, name="trace", max_rounds=8, module="Trace_Sample", 
         if not cl:
             break
     else:
-        raise core.ToolError("more than %d rejected runs; giving up (see %s)" % (max_rounds, wd))
+        # the remaining runs were not validated; what was found is reported
+        core.log("stopped after %d rejected runs; the rest of the trace was not validated" % max_rounds)
+        nruns = sum(1 for l in lines if '"Reset"' in l)
+        return 0, rejections, states, gen
     nruns = sum(1 for l in lines if '"Reset"' in l)
     return nruns - len(rejections), rejections, states, gen
 
